@@ -257,7 +257,19 @@ pub fn run_item(prop: &str, tier: &str, idx: usize, only: Option<&Value>) -> MRe
                         res.violate(format!("{}:{}:no-cloexec", bk, c.op.name), format!("descriptor without FD_CLOEXEC: tree [{}] {}", tree.text(), c.op.brief()), replay.clone());
                     }
                 }
-                let (cw, cg) = if c.op.name == "open_subpath" { (want.clone(), got.clone()) } else { (strip_fl(&want), strip_fl(&got)) };
+                let cmp = |w: &Want, g: &Want| if c.op.name == "open_subpath" { (w.clone(), g.clone()) } else { (strip_fl(w), strip_fl(g)) };
+                let (mut cw, mut cg) = cmp(&want, &got);
+                if prop == "C01" && cg != cw && !has_nul {
+                    // a divergence on a static tree is deterministic; an answer that changes when the same single case is asked again
+                    // (kernel walks restarted under machine load keep their link count: spurious ELOOP below the limit) is not one
+                    for _ in 0..3 {
+                        let o2 = wk.one(c.op.clone())?;
+                        let g2 = got_of(&o2);
+                        let w2 = kernel_oracle(rootfd.as_raw_fd(), c);
+                        let (cw2, cg2) = cmp(&w2, &g2);
+                        if cw2 == cg2 { res.count("unstable_answers", 1); cw = cw2; cg = cg2; break; }
+                    }
+                }
                 if prop == "C01" && cg != cw {
                     let chain = is_chain && tree.0.len() > 41 && matches!(want, Want::Err(libc::ELOOP));
                     let key = if chain { format!("{}:linkchain>40:ELOOP->not-ELOOP", bk) } else { format!("{}:{}:{}:{}->{}", bk, c.op.name, path_class(path), cls(&want), cls(&got)) };
